@@ -112,6 +112,14 @@ def install():
             min_human_food_consumption=None, title="Untitled"):
         _count("ScenarioRunner.run_optimizer")
         n0 = len(CUR.lps) if CUR is not None else 0
+        given_t = given_c = None
+        if CUR is not None:
+            # the supplies as they are handed over, before the optimiser object (whose constructor receives the same
+            # dictionaries) has seen them: the ledgers are audited against these
+            try:
+                given_t, given_c = copy.deepcopy(time_consts), copy.deepcopy(consts_for_optimizer)
+            except Exception:
+                given_t = given_c = None
         r = ro(self, consts_for_optimizer, time_consts, optimization_type=optimization_type,
                min_human_food_consumption=min_human_food_consumption, title=title)
         if CUR is not None:
@@ -119,6 +127,10 @@ def install():
             if lp is not None:
                 lp.interp = r
                 lp.title = title
+                if given_t is not None:
+                    lp.inputs_changed = changed_inputs(given_c, given_t, lp.consts, lp.time_consts)
+                    lp.consts_used, lp.time_consts_used = lp.consts, lp.time_consts
+                    lp.consts, lp.time_consts = given_c, given_t
             CUR.rounds.append((title, optimization_type, r, lp))
         return r
 
@@ -222,7 +234,7 @@ def run_pipeline(case, share_opts=False, runner=None):
             tr.result = res
         else:
             out = (runner if runner is not None else ScenarioRunnerNoTrade()).run_model_no_trade(
-                title=title, create_pptx_with_all_countries=False, show_country_figures=False,
+                title=title, create_pptx_with_all_countries=bool(case.get("plots")), show_country_figures=False,
                 show_map_figures=False, add_map_slide_to_pptx=False, scenario_option=opts,
                 countries_list=[case["iso"]], return_results=True, save_all_results=bool(case.get("save_all")))
 
@@ -258,6 +270,37 @@ def run_pipeline(case, share_opts=False, runner=None):
     tr.opts_after = opts
     tr.wall = time.time() - t0
     return tr
+
+
+def _num(x):
+    """numeric view of a supply entry (array, list, Food or object holding Foods) -> dict name -> ndarray"""
+    out = {}
+    if hasattr(x, "kcals") and hasattr(x, "fat"):
+        out[""] = np.atleast_1d(np.asarray(x.kcals, float))
+    elif isinstance(x, (list, tuple, np.ndarray, int, float, np.floating, np.integer)) and not isinstance(x, bool):
+        try:
+            out[""] = np.atleast_1d(np.asarray(x, float))
+        except Exception:
+            pass
+    elif hasattr(x, "__dict__") and not callable(x):
+        for k, v in list(vars(x).items())[:40]:
+            if hasattr(v, "kcals") and hasattr(v, "fat"):
+                out["." + k] = np.atleast_1d(np.asarray(v.kcals, float))
+    return out
+
+
+def changed_inputs(c0, t0, c1, t1):
+    """names of the numeric inputs that differ between what was handed to the optimiser and what it holds afterwards"""
+    ch = []
+    for label, a, b in (("time_consts", t0, t1), ("consts", c0, c1)):
+        for k in a:
+            if k == "inputs" or k not in b:
+                continue
+            na, nb = _num(a[k]), _num(b[k])
+            for sub in na:
+                if sub in nb and (na[sub].shape != nb[sub].shape or not np.array_equal(na[sub], nb[sub], equal_nan=True)):
+                    ch.append("%s[%r]%s" % (label, k, sub))
+    return ch
 
 
 def saved_files(scratch, title, country=None):
